@@ -176,6 +176,14 @@ func (fr *frame) contractCall(v ssa.Value, sp *FuncSpec, f *ssa.Function, sig *t
 			e.errf("%s:%d: %v", c.File, c.Line, err)
 			continue
 		}
+		if e.rootSpec != nil {
+			if reason, ok := e.rootSpec.Options["assumepre:"+shortName(name)+"."+c.Label]; ok {
+				e.assumes++
+				e.assumedPre[shortName(name)+"."+c.Label] = reason
+				e.assume(implies(bc, t))
+				continue
+			}
+		}
 		o := fr.oblige("call-pre", shortName(name)+"."+c.Label+":"+fr.srcText(pos), bc, t, pos, nil)
 		o.Src = c.Text
 		e.assume(implies(bc, t))
@@ -225,13 +233,16 @@ func (fr *frame) contractCall(v ssa.Value, sp *FuncSpec, f *ssa.Function, sig *t
 			env2.vars[sp.Results[k]] = b
 		}
 	}
-	for _, c := range sp.Ensures {
+	for _, c := range append(append([]*Clause{}, sp.Ensures...), sp.Marks...) {
 		t, err := env2.boolExpr(c.Text)
 		if err != nil {
 			e.errf("%s:%d: %v", c.File, c.Line, err)
 			continue
 		}
 		e.assume(implies(bc, t))
+	}
+	if len(sp.Marks) > 0 {
+		e.usedMarks[shortFunc(name)] = len(sp.Marks)
 	}
 	fr.setResults(v, sig, rs)
 }
@@ -295,6 +306,7 @@ func (fr *frame) inlineCall(v ssa.Value, f *ssa.Function, sp *FuncSpec, args []s
 	e.ninline++
 	sub := e.newFrame(f, nil, fr.depth+1)
 	sub.prefix = fmt.Sprintf("%si%d.", fr.prefix, e.ninline)
+	sub.baseAllowed = e.curAllowed
 	// pass pointer infos of args for pointer params
 	for i, a := range argVals {
 		if p, ok := fr.ptrs[a]; ok && i < len(f.Params) {
